@@ -83,7 +83,7 @@ def run(ctx):
     # chain-level rule through the real liskbft.Module: IsHeaderContradictingChain probes in the BFT trace
     b2 = ctx.go_build("./cmd/c02")
     chains = 300 if ctx.tier == "quick" else 3000
-    tr = c02.validate(ctx, b2, chains, ctx.seed, "c07")
+    tr = c02.validate(ctx, b2, chains, ctx.seed, "c07", cfg="LiskBFTTrace_contra")
     c02.report(ctx, tr, ctx.seed, chains, pid_kinds=("contra",))
     if tr["mismatch"] and tr["mismatch"]["kind"] != "contra":
         log("[c07] note: BFT trace diverges for a reason outside C07 (%s); contradiction probes before line %d were validated" % (
